@@ -427,6 +427,41 @@ func ContentionWith(seed int64, index int, tier string, opts ContentionOpts) *sp
 			}
 		}
 		rl := NewRand(seed, index, 24)
+		// in half of these cases one running single-pod workload of the over-quota organisation that started ten hours
+		// ago is being restarted: its pod is terminating and the replacement is pending. If the replacement gets the
+		// free device while the old pod is still there, the workload has (re)started NOW
+		if rl.IntN(2) == 0 {
+			for _, pg := range c.Objects.PodGroups {
+				if !overQ[pg.Spec.Queue] || pg.Spec.MinMember != 1 || pg.Spec.Preemptibility == enginev2alpha2.NonPreemptible {
+					continue
+				}
+				var own []*v1.Pod
+				for _, pod := range c.Objects.Pods {
+					if pod.Annotations["pod-group-name"] == pg.Name {
+						own = append(own, pod)
+					}
+				}
+				if len(own) != 1 || own[0].Spec.NodeName == "" || own[0].DeletionTimestamp != nil {
+					continue
+				}
+				old := own[0]
+				repl := old.DeepCopy()
+				repl.Name = old.Name + "-r0"
+				repl.UID = types.UID("uid-" + repl.Name)
+				repl.Spec.NodeName = ""
+				repl.Status = v1.PodStatus{Phase: v1.PodPending}
+				delete(repl.Annotations, "received-resource-type")
+				repl.CreationTimestamp = metav1.NewTime(now.Add(-time.Minute))
+				dt := metav1.NewTime(now)
+				old.DeletionTimestamp = &dt
+				old.Finalizers = []string{"verif/terminating"}
+				old.Annotations[spec.RecreatedAnno] = "true"
+				pg.Annotations["kai.scheduler/last-start-timestamp"] = now.Add(-10 * time.Hour).Format(time.RFC3339)
+				c.Objects.Pods = append(c.Objects.Pods, repl)
+				c.Meta["restarting_workload"] = pg.Name
+				break
+			}
+		}
 		for _, pg := range c.Objects.PodGroups {
 			if overQ[pg.Spec.Queue] || !pendingOnly[pg.Name] {
 				continue
